@@ -744,6 +744,8 @@ def public_stats(s):
             p = list(s.posterior(return_blobs=s.blobs is not None))
             if isinstance(p[0], dict):
                 p[0] = [p[0][k] for k in sorted(p[0])]
+            if len(p[1]) == 0:
+                p[0] = 'no rows'
             st['posterior'] = p
     return st
 
